@@ -146,12 +146,25 @@ package keeper
 
 // After the collection loop every collected (bonded, oracle-active) validator that has a stored price list is
 // represented in the price table: no validator's fresh prices are dropped because another validator has none.
+//@ spec vplOf(s Store, a Addr) []types.ValidatorPrice = dec(types.ValidatorPriceList, s[types.ValidatorPriceListStoreKey(a)]).ValidatorPrices
 //@ func (k Keeper) CalculatePrices
 //@ modifies Store_feeds, Other
 //@ assert before params: forall j :: 0 <= j && j < len(validatorsByPower) ==> (has(Store_feeds, types.ValidatorPriceListStoreKey(validatorsByPower[j].Address)) ==> has(allValidatorPrices, addrstr(validatorsByPower[j].Address)))
 //@ loop 0: invariant Store_feeds == old(Store_feeds)
 //@ loop 0: invariant forall j :: 0 <= j && j < #i ==> (has(Store_feeds, types.ValidatorPriceListStoreKey(validatorsByPower[j].Address)) ==> has(allValidatorPrices, addrstr(validatorsByPower[j].Address)))
 //@ loop 3: invariant forall j :: 0 <= j && j < len(validatorPriceInfos) ==> validatorPriceInfos[j].Power >= 0
+// C15: every price entry a validator has on record with ANY reported status (available, unavailable, unsupported - all
+// but "unspecified") is in its row of the price table, so a validator that reported a non-available status in time is
+// not mistaken for one that reported nothing
+//@ loop 1: invariant forall j :: 0 <= j && j < #i ==> (valPricesList.ValidatorPrices[j].SignalPriceStatus != types.SIGNAL_PRICE_STATUS_UNSPECIFIED ==> has(valPricesMap, valPricesList.ValidatorPrices[j].SignalID))
+//@ loop 0: invariant forall j :: 0 <= j && j < #i ==> (has(Store_feeds, types.ValidatorPriceListStoreKey(validatorsByPower[j].Address)) ==>
+//@        (forall e :: 0 <= e && e < len(vplOf(Store_feeds, validatorsByPower[j].Address)) ==>
+//@            (vplOf(Store_feeds, validatorsByPower[j].Address)[e].SignalPriceStatus != types.SIGNAL_PRICE_STATUS_UNSPECIFIED
+//@             ==> has(allValidatorPrices[addrstr(validatorsByPower[j].Address)], vplOf(Store_feeds, validatorsByPower[j].Address)[e].SignalID))))
+//@ assert before params: forall j :: 0 <= j && j < len(validatorsByPower) ==> (has(Store_feeds, types.ValidatorPriceListStoreKey(validatorsByPower[j].Address)) ==>
+//@        (forall e :: 0 <= e && e < len(vplOf(Store_feeds, validatorsByPower[j].Address)) ==>
+//@            (vplOf(Store_feeds, validatorsByPower[j].Address)[e].SignalPriceStatus != types.SIGNAL_PRICE_STATUS_UNSPECIFIED
+//@             ==> has(allValidatorPrices[addrstr(validatorsByPower[j].Address)], vplOf(Store_feeds, validatorsByPower[j].Address)[e].SignalID))))
 // price aggregation writes price records only: votes, totals, the current-feed list, validator price lists stay
 //@ ensures forall q Bz :: !iskey(types.PriceStoreKey, q) ==> Store_feeds[q] == old(Store_feeds)[q]
 //@ loop 2: invariant forall q Bz :: !iskey(types.PriceStoreKey, q) ==> Store_feeds[q] == old(Store_feeds)[q]
